@@ -8,3 +8,11 @@ Definition HMAC_SHA1_spec : list N -> list N -> list N := HMAC_spec SHA1_spec.
 Definition HMAC_MD5_spec : list N -> list N -> list N := HMAC_spec MD5_spec.
 Definition PBKDF2_SHA256_spec : list N -> list N -> N -> N -> list N :=
   PBKDF2_spec HMAC_SHA256_spec 32%N.
+
+(* digests of streams resumed from an arbitrary (state, bit count, buffer) *)
+Definition SHA256_resume_spec (st : list N) (bits : N) (buf d : list N) : list N :=
+  be32enc_vect (md_resume f256_compress be64enc st bits buf d).
+Definition SHA1_resume_spec (st : list N) (bits : N) (buf d : list N) : list N :=
+  be32enc_vect (md_resume f1_compress be64enc st bits buf d).
+Definition MD5_resume_spec (st : list N) (bits : N) (buf d : list N) : list N :=
+  le32enc_vect (md_resume r5_compress le64enc_spec st bits buf d).
